@@ -5,7 +5,7 @@
    node populations, ignore lists, counts and seeds (profile "select") and through every
    Store / Ready / Migrate / timeout in the application histories. *)
 From SaoVerif Require Import Base.Prelude Base.Ints Base.Dec Model.Did Model.Types Model.Monad Model.Select Model.Node
-     Model.Storage Model.Sao Model.Hooks Model.App Model.Spec Proofs.SelectFacts Proofs.SelectApp Proofs.Placement Proofs.MigratePl.
+     Model.Storage Model.Sao Model.Hooks Model.App Model.Spec Proofs.SelectFacts Proofs.SelectApp Proofs.Placement Proofs.MigratePl Proofs.InRange.
 
 (* Whatever the node population, ignore list, requested count and seed: the chosen
    providers are pairwise distinct, each is a registered node that is online, serves
@@ -88,3 +88,12 @@ Theorem C15_migrate_new_shards_fresh : forall cx creator provider data s s',
     (exists n, nodes s !! sh_sp sh' = Some n /\ eligible (pledges s) (i64 (sh_size sh')) (mkCand (sh_sp sh') n) = true).
 Proof. exact migrate_new_shards_fresh. Qed.
 Print Assumptions C15_migrate_new_shards_fresh.
+
+(* the re-assignment loop of HandleTimeoutOrder indexes timeoutShards[i] for every provider RandomSP returned (the model
+   pairs the lists with combine): asked for as many providers as shards have stalled, RandomSP never returns more, so the
+   index is in range and nothing is cut off *)
+Theorem C15_reassignment_index_in_range : forall {A} cx (stalled : list A) ignore size s sps s',
+  0 <= cx_seed cx -> random_sp_m cx (Z.of_nat (length stalled)) ignore size s = Ok sps s' ->
+  (length sps <= length stalled)%nat /\ length (combine sps stalled) = length sps.
+Proof. intros A. exact (@reassignment_index_in_range A). Qed.
+Print Assumptions C15_reassignment_index_in_range.
